@@ -237,6 +237,10 @@ func genOps(prop string, r *Rng, n int, tier string, emit func(string)) {
 			switch r.Intn(9) {
 			case 8: // CompoundPacket is a packet type too: its own Marshal/Unmarshal pair
 				emit("crt " + packetsTokens(genCompoundSeq(r)))
+				if r.Chance(1, 3) {
+					q := genValue(r, "REMB", false).(*rtcp.ReceiverEstimatedMaximumBitrate)
+					emit(fmt.Sprintf("rembto %s %d", bodyTokens(q), q.MarshalSize()+r.Pick(0, 0, 4)))
+				}
 			case 7: // a forwarder inserting a packet of its own
 				emit("relay " + hx(genRelayDatagram(r)))
 			case 6: // own decoder round trip
@@ -302,7 +306,7 @@ func genOps(prop string, r *Rng, n int, tier string, emit func(string)) {
 	case "C03":
 		for i := 0; i < n; i++ {
 			k := allKinds[r.Intn(len(allKinds))]
-			emit(opWith("encspec", genValue(r, k, false)))
+			emit(opWith("encspec", dirtyXRHeaders(r, genValue(r, k, false))))
 		}
 		for _, k := range bigKinds {
 			if thorough || r.Chance(1, 3) {
@@ -327,6 +331,15 @@ func genOps(prop string, r *Rng, n int, tier string, emit func(string)) {
 			for i := 0; i < n/20; i++ {
 				emit(genReuseOp(r))
 			}
+			for i := 0; i < n/40; i++ { // count-inflated first frame inside a datagram
+				k := []string{"SR", "RR", "SDES", "BYE"}[r.Intn(4)]
+				b := validFrame(r, k)
+				c := int(b[0] & 31)
+				if c < 31 {
+					b[0] = b[0]&0xE0 | byte(c+1)
+				}
+				emit("udec " + hx(append(b, validFrame(r, allKinds[r.Intn(len(allKinds))])...)))
+			}
 			emit(genBigDecvOp(r, 1)) // FIR: the cheapest of the three in the model's list-indexing decoder
 		}
 		{ // an APP packet of 262144 octets: length field 0xFFFF
@@ -340,7 +353,7 @@ func genOps(prop string, r *Rng, n int, tier string, emit func(string)) {
 	case "C05":
 		for i := 0; i < n; i++ {
 			k := allKinds[r.Intn(len(allKinds))]
-			p := genValue(r, k, r.Chance(1, 3))
+			p := dirtyXRHeaders(r, genValue(r, k, r.Chance(1, 3)))
 			switch r.Intn(5) {
 			case 0:
 				emit(encOp(p))
@@ -411,6 +424,9 @@ func genOps(prop string, r *Rng, n int, tier string, emit func(string)) {
 			if r.Chance(1, 3) {
 				emit("concat " + hx(genDatagram(r)) + " " + hx(genDatagram(r)))
 			}
+			if r.Chance(1, 20) {
+				emit("udec " + hx(genCcfbShort(r)))
+			}
 		}
 	case "C07":
 		// the dispatch table: every (PT,count) row; quick tier takes a seeded slice
@@ -457,6 +473,14 @@ func genOps(prop string, r *Rng, n int, tier string, emit func(string)) {
 				emit("udec " + hx(b))
 			}
 		}
+		for _, pf := range registeredPairs { // 4-octet frames of every registered pair to every decoder
+			f := hdrBytes(false, pf[1], pf[0], 0)
+			for _, t := range decKinds {
+				if thorough || r.Chance(1, 3) {
+					emit("dec." + t + " " + hx(f))
+				}
+			}
+		}
 		{ // frames of unregistered types at the largest frame sizes (length field 0xFFFE, 0xFFFF)
 			for _, words := range []int{0xFFFF, 0x10000} {
 				b := behindHeader(r, r.Pick(192, 199, 208), int(r.Bits(5, 5)), 4*words-4)
@@ -477,6 +501,10 @@ func genOps(prop string, r *Rng, n int, tier string, emit func(string)) {
 			for j := 0; j < 6; j++ {
 				emit(encOp(genCountWrap(r, k)))
 			}
+		}
+		for i := 0; i < n/40; i++ {
+			q := genValue(r, "REMB", true).(*rtcp.ReceiverEstimatedMaximumBitrate)
+			emit(fmt.Sprintf("rembto %s %d", bodyTokens(q), q.MarshalSize()+r.Pick(0, 4)))
 		}
 		for _, k := range bigKinds {
 			if thorough || r.Chance(1, 2) {
@@ -530,8 +558,36 @@ func genOps(prop string, r *Rng, n int, tier string, emit func(string)) {
 			if r.Chance(1, 20) {
 				emit(fmt.Sprintf("newcname %d %s", r.Bits(32, 32), hx(r.Bytes(r.Len(6, 0, 255)))))
 			}
+			if r.Chance(1, 10) { // a valid compound with a member that cannot be marshalled
+				qs := genCompoundSeq(r)
+				bad := genValue(r, []string{"BYE", "SDES", "RR", "APP", "NACK", "REMB"}[r.Intn(6)], true)
+				qs = append(qs, bad)
+				emit("cenc " + packetsTokens(qs))
+			}
+			if r.Chance(1, 10) {
+				emit("reuse.COMPOUND " + hx(genDatagram(r)) + " " + hx(genDatagram(r)))
+				if b, err := rtcp.Marshal(ps); err == nil {
+					if b2, err := rtcp.Marshal(genCompoundSeq(r)); err == nil {
+						emit("reuse.COMPOUND " + hx(b) + " " + hx(b2))
+					}
+				}
+			}
 		}
 	case "C12":
+		for i := 0; i < 6; i++ { // inputs that need hundreds of pairs
+			w := &W{}
+			m := r.Pick(253, 254, 255, 300, 1000)
+			w.U(uint64(m))
+			base := uint16(r.Bits(16, 16))
+			for j := 0; j < m; j++ {
+				base += uint16(17 + r.Intn(3))
+				w.U(uint64(base))
+			}
+			emit("nackpairs " + w.String())
+		}
+		for i := 0; i < n/10; i++ {
+			emit(fmt.Sprintf("plist2 %d %d %d", r.Bits(16, 16), r.Bits(16, 16), r.Intn(19)))
+		}
 		for i := 0; i < n; i++ {
 			switch r.Intn(3) {
 			case 0:
@@ -582,6 +638,16 @@ func genOps(prop string, r *Rng, n int, tier string, emit func(string)) {
 				b = genTwccWrapValid(r)
 			}
 			emit("dec.TWCC " + hx(b))
+			if r.Chance(1, 12) { // a second packet decoded into the same value, often one reporting on no packets
+				b2 := genTwccBytes(r)
+				if r.Bool() {
+					z := &rtcp.TransportLayerCC{Header: rtcp.Header{Count: 15, Type: 205, Length: 4}, SenderSSRC: uint32(r.U64()), MediaSSRC: uint32(r.U64()), FbPktCount: uint8(r.U64())}
+					if zb, err := safeMarshal(z); err == nil {
+						b2 = zb
+					}
+				}
+				emit("reuse.TWCC " + hx(b) + " " + hx(b2))
+			}
 			if r.Chance(1, 4) {
 				if bb, err := safeMarshal(genTwcc(r, false)); err == nil {
 					emit("dec.TWCC " + hx(bb))
@@ -600,6 +666,14 @@ func genOps(prop string, r *Rng, n int, tier string, emit func(string)) {
 			case 2:
 				p := genValue(r, "REMB", false)
 				emit("rt 1 " + packetTokens(p))
+			}
+			if r.Chance(1, 15) {
+				emit("reuse.REMB " + hx(rembWire(r, r.Intn(64), 1+r.Intn(0x3FFFF), 1+r.Intn(3))) + " " + hx(rembWire(r, r.Intn(64), 1+r.Intn(0x3FFFF), r.Pick(0, 0, 1))))
+			}
+			if r.Chance(1, 15) {
+				for _, bits := range []uint32{0xbf000000, 0xbf7fbe77, 0xaedbe6ff, 0x80000001, 0x807fffff, 0xbf7fffff, 0xbf800000} {
+					emit(fmt.Sprintf("enc.REMB %d %d 0", r.Bits(32, 32), bits))
+				}
 			}
 		}
 		if thorough {
@@ -627,9 +701,13 @@ func genOps(prop string, r *Rng, n int, tier string, emit func(string)) {
 		for i := 0; i < n; i++ {
 			switch r.Intn(4) {
 			case 0:
-				emit(encOp(genValue(r, "XR", r.Chance(1, 4))))
+				emit(encOp(dirtyXRHeaders(r, genValue(r, "XR", r.Chance(1, 4)))))
 			case 1:
-				emit("dec.XR " + hx(genXRBytes(r)))
+				if r.Chance(1, 6) {
+					emit("decalias.XR " + hx(genXRBytes(r)))
+				} else {
+					emit("dec.XR " + hx(genXRBytes(r)))
+				}
 			case 2:
 				emit("rt 1 " + packetTokens(genValue(r, "XR", false)))
 			case 3:
@@ -688,6 +766,9 @@ func genOps(prop string, r *Rng, n int, tier string, emit func(string)) {
 				}
 			case 9:
 				emit(fmt.Sprintf("xrchunk %d", r.Bits(16, 16)))
+				if r.Bool() {
+					emit("ccfbmetric.reuse " + hx(r.Bytes(2)) + " " + hx(r.Bytes(2)))
+				}
 			case 10:
 				p := genValue(r, []string{"NACK", "SLI", "FIR"}[r.Intn(3)], false)
 				if r.Bool() {
@@ -791,6 +872,10 @@ func genOps(prop string, r *Rng, n int, tier string, emit func(string)) {
 			}
 			if r.Chance(1, 4) {
 				emit(genReuseOp(r))
+			}
+			if r.Chance(1, 6) {
+				ak := decKinds[r.Intn(len(decKinds))]
+				emit("decalias." + ak + " " + hx(validFrame(r, ak)))
 			}
 			if r.Chance(1, 12) {
 				p := genValue(r, "REMB", false).(*rtcp.ReceiverEstimatedMaximumBitrate)
